@@ -50,7 +50,9 @@
 (* L2: Classify (file / inline / decl / stmt / lone) -> ComputeRange [s,e] *)
 (* -> Filter with the inclusive range test of IgnoreSet and the code       *)
 (* hierarchy of Codes.  L1: InScope by structure.                          *)
-(* Deviations: RangeToNodeStart (standalone comment in a body covers only  *)
+(* Deviations: PrefixMatch (a token that is a proper prefix of the code    *)
+(* or of its category suppresses it), RangeToNodeStart (standalone comment *)
+(* in a body covers only                                                   *)
 (* up to the *start* of the next node - pinned code, D6), TrailAfterDecl   *)
 (* (a comment trailing the last line of a top-level declaration is applied *)
 (* to the next declaration - pinned code, D7), OnceConsumesSlot (a         *)
@@ -110,15 +112,20 @@ FileEnd(f) == IF f = 1 THEN 210 ELSE 1200
 LineStart(p) == (p \div 10) * 10
 
 (* code lists: abstract tokens relative to the diagnostic code c of the kind *)
+\* tokens that are no code but look like one: the code without its last character (IMM0), the category without its last letter
+\* (IM), the code with one more digit (IMM011) - they match nothing
+NearLists == {<<"prefix">>, <<"catprefix">>, <<"longer">>}
 Lists == {<<"exact">>, <<"lower">>, <<"cat">>, <<"ALL">>, <<"all_lower">>, <<"othercode">>, <<"othercat">>, <<"unknown">>,
-          <<"othercat", "exact">>, <<"unknown", "othercode">>, <<"exact", "text">>, <<"othercat", "text_exact">>}
+          <<"othercat", "exact">>, <<"unknown", "othercode">>, <<"exact", "text">>, <<"othercat", "text_exact">>} \cup NearLists
 OtherCode(c) == CHOOSE x \in CodesOf(CatOf(c)) : x # c
 OtherCat(c) == CHOOSE x \in Cats : x # CatOf(c)
 \* the normalised (upper-cased) token a list element stands for; "" = not a token at all (free text after the codes)
 Norm(t, c) == CASE t \in {"exact", "lower"} -> c [] t = "cat" -> CatOf(c) [] t \in {"ALL", "all_lower"} -> "ALL"
                 [] t = "othercode" -> OtherCode(c) [] t = "othercat" -> OtherCat(c) [] t = "unknown" -> "FOO1"
                 [] t \in {"text", "text_exact"} -> ""
+                [] t \in {"prefix", "catprefix", "longer"} -> "FOO2"
 ListMatches(l, c) == \E i \in 1..Len(l) : Norm(l[i], c) # "" /\ Matches(Norm(l[i], c), c)
+ListMatches2(l, c) == ListMatches(l, c) \/ ("PrefixMatch" \in Deviations /\ \E i \in 1..Len(l) : l[i] \in {"prefix", "catprefix"})
 
 (***************************************************************************)
 (* L1: scope by structure                                                  *)
@@ -159,7 +166,12 @@ InitScenario2 ==   \* (quick) a file-level directive in the first file together 
   /\ \E k \in Kinds, s \in {"D4", "S41", "T41", "S61", "TD5"}, l \in {<<"ALL">>, <<"exact">>} :
        sc = [kind |-> k, slot |-> s, slot2 |-> "F0", list |-> l, ld |-> FALSE]
 
-Init == /\ (InitScenario \/ InitScenario2)
+InitScenario3 ==   \* (quick) near-tokens at the four kinds of scope
+  /\ Mode = "quick"
+  /\ \E k \in Kinds, s \in {"F0", "D1", "S12", "T13"}, l \in NearLists :
+       sc = [kind |-> k, slot |-> s, slot2 |-> "none", list |-> l, ld |-> FALSE]
+
+Init == /\ (InitScenario \/ InitScenario2 \/ InitScenario3)
         /\ ph = "classify" /\ cls = "?" /\ rng = <<0, 0>> /\ cls2 = "?" /\ rng2 = <<0, 0>> /\ out = {}
 
 \* the top-level declaration whose span contains p, or 0
@@ -221,7 +233,7 @@ Contained(p) == IF "LastMarkerOnly" \in Deviations /\ rng[1] <= rng[2] /\ rng2[1
                   THEN (IF rng[1] >= rng2[1] THEN InR(rng, p) ELSE InR(rng2, p))
                   ELSE InR(rng, p) \/ InR(rng2, p)
 FuncLine(slot, a) == "FuncLineCoversBody" \in Deviations /\ ((slot = "TF1" /\ DeclOf(a) = 1) \/ (slot = "TF4" /\ DeclOf(a) = 4))
-Supp2(a) == (Contained(PosOf(a, sc.kind)) \/ FuncLine(sc.slot, a) \/ FuncLine(sc.slot2, a)) /\ ListMatches(sc.list, CodeOfKind(sc.kind))
+Supp2(a) == (Contained(PosOf(a, sc.kind)) \/ FuncLine(sc.slot, a) \/ FuncLine(sc.slot2, a)) /\ ListMatches2(sc.list, CodeOfKind(sc.kind))
 
 Filter ==
   /\ ph = "filter"
